@@ -83,11 +83,14 @@ Piece(t) ==
       [] t = 5 -> Pc(-1, <<0, 0>>, <<0, -1>>, 2)       \*  -x - z2 x + 2
       [] t = 6 -> Pc(1, <<-1, 1>>, <<0, 0>>, 0)        \*  x - z1 + z2
       [] t = 7 -> Pc(0, <<0, 0>>, <<0, 0>>, 0)         \*  0
+      [] t = 8 -> Pc(1, <<0, 0>>, <<0, 0>>, -2)        \*  x - 2      (no random term, non-zero constant)
+      [] t = 9 -> Pc(-2, <<0, 0>>, <<0, 0>>, 1)        \*  1 - 2x
       \* expectation-constraint templates  E(h) <= 0
       [] t = 11 -> Pc(-1, <<1, 0>>, <<0, 0>>, -1)      \*  z1 - x - 1
       [] t = 12 -> Pc(1, <<0, 1>>, <<0, 1>>, -4)       \*  x + z2 + z2 x - 4
 PieceVal(pc, x, z, sc) == pc.ax * x + sc * (pc.az[1] * z[1] + pc.az[2] * z[2]) + (pc.axz[1] * z[1] + pc.axz[2] * z[2]) * x + sc * pc.b
 PiecePairs(k) == CASE k = 1 -> <<1, 2>> [] k = 2 -> <<3, 4>> [] k = 3 -> <<5, 6>> [] k = 4 -> <<1, 7>> [] k = 5 -> <<4, 5>>
+                   [] k = 6 -> <<1, 8>> [] k = 7 -> <<9, 4>>        \* one piece without random variables, constant # 0
 
 Max2(a, b) == IF a >= b THEN a ELSE b
 
